@@ -154,6 +154,7 @@ impl<T: 'static> Sender<T> {
                     Ok(()) => {
                         k.wake(res);
                         log(&self.meta, "send", true, self.tx().len(), desc);
+                        kernel::post_effect();
                         return Ok(());
                     }
                     Err(TrySendError::Disconnected(m)) => return Err(SendTimeoutError::Disconnected(m)),
